@@ -93,6 +93,8 @@ def gen_cases(rng, tier, scale):
         [('pi', 1), ('regs', 'b', 'B2 {{v}}'), ('regs', 'a', '  {{> b}}\n'), ('pi', 0), ('regs', 'c', '  {{> b}}\n'), ('clone',), ('sel', 1), ('pi', 1)],
         [('dev', 1), ('fw', 'f1', 'A1'), ('regf', 'a', 'f1'), ('regs', 'a', 'B2 {{v}}'), ('fw', 'f1', 'C3{{#if v}}y{{/if}}'), ('dev', 0), ('dev', 1)],
         [('dev', 1), ('fw', 'f3', '{{#if}'), ('regf', 'a', 'f3'), ('fw', 'f3', 'A1'), ('regf', 'a', 'f3'), ('fw', 'f3', '{{#if}'), ('dev', 0)],
+        # a file-backed template reached again from inside its own render (a -> b -> a, cut off by the data): every copy is current
+        [('dev', 1), ('fw', 'f1', 'A1{{#if v}}{{> b v=false}}{{/if}}'), ('regf', 'a', 'f1'), ('regs', 'b', 'C3[{{> a}}]'), ('fw', 'f1', 'B2{{#if v}}{{> b v=false}}{{/if}}')],
         # a registration that FAILS to compile changes nothing — the name stays file-backed and follows the file
         [('dev', 1), ('fw', 'f1', 'A1'), ('regf', 'a', 'f1'), ('regs', 'a', '{{#if}'), ('fw', 'f1', 'B2 {{v}}')],
         [('dev', 1), ('fw', 'f1', 'A1'), ('regf', 'a', 'f1'), ('regs', 'a', '{{/x}}'), ('fw', 'f1', 'C3{{#if v}}y{{/if}}'), ('regs', 'a', '{{#if}'), ('fw', 'f1', 'B2 {{v}}')],
